@@ -27,7 +27,7 @@ impl<'a> MemTableQuery<'a> {
     }
 
     pub fn query(&self) -> Vec<Event> {
-        let evaluator = ConditionEvaluatorBuilder::build_from_plan(self.plan);
+        let evaluator = ConditionEvaluatorBuilder::build_for_events(self.plan);
         let event_type = self.plan.event_type();
         let context_id = self.plan.context_id();
 
